@@ -169,6 +169,9 @@ pub fn alphabet_at(level: Level, k: usize, base: u16) -> Vec<Stmt> {
             Some(Branch::Stmts(vec![Stmt::If(var("I"), Branch::Line(first), Some(Branch::Stmts(vec![marker()])))])),
         ));
         a.push(for_("I", 1, 3, Some(2)));
+        // a step of exactly 0: ascending rule (never past the limit / past it after the first pass)
+        a.push(for_("I", 1, 3, Some(0)));
+        a.push(for_("I", 3, 1, Some(0)));
         a.push(Stmt::For("J".into(), var("I"), int(2), None));
         a.push(Stmt::Next(vec!["J".into()]));
         a.push(Stmt::Next(vec!["I".into(), "J".into()]));
